@@ -1,6 +1,7 @@
 (* C09 proofs. *)
 From Slsk Require Import Base.Tac.
 From Coq Require DecimalN DecimalFacts.
+From SlskGen Require Import NamingGen.
 From Slsk Require Import C09.Model.
 Open Scope N_scope.
 
@@ -44,7 +45,7 @@ Proof. intros. destruct (str_eqb a b) eqn:E; [apply str_eqb_eq in E; congruence|
 (* ---- split_remote_path: parts are non-empty and contain no separator *)
 Lemma split_at_seps_nosep : forall s cur, nosep cur -> forall c, In c (split_at_seps cur s) -> nosep c.
 Proof.
-  induction s; intros cur Hc c Hin; cbn in Hin.
+  induction s; intros cur Hc c Hin; cbn [split_at_seps] in Hin.
   - destruct Hin as [<-|[]]. intros x Hx. apply in_rev in Hx. apply Hc. assumption.
   - destruct (is_sep a) eqn:E.
     + destruct Hin as [<-|Hin].
@@ -56,7 +57,7 @@ Qed.
 Lemma split_parts : forall s c, In c (split_remote_path s) -> regular_name c.
 Proof.
   intros s c H. unfold split_remote_path in H. apply filter_In in H. destruct H as (H1 & H2).
-  unfold keep_part in H2. apply andb_prop in H2. destruct H2 as (K1 & K2). apply andb_prop in K2. destruct K2 as (K2 & K3).
+  unfold keep_part, SPLIT_DROPS in H2. cbn [existsb] in H2. apply andb_prop in H2. destruct H2 as (K1 & K2).
   repeat split.
   - destruct c; discriminate.
   - intros E. subst c. discriminate.
@@ -155,11 +156,11 @@ Lemma apply_good : forall fs remote dl st seen p f, good dl seen p f ->
 Proof.
   intros fs remote dl st seen p f ((ds & -> & Hds) & Hn & Hr).
   destruct st; unfold apply_strat.
-  - rewrite orb_true_r. destruct (rev (split_remote_path remote)) as [|l r] eqn:E.
+  - rewrite orb_true_r. unfold default_has_fallback. destruct (rev (split_remote_path remote)) as [|l r] eqn:E.
     + exists (dl ++ ds), UNNAMED. split; [reflexivity|]. split; [exists ds; auto|]. split; [apply unnamed_regular|intros _; exact unnamed_regular].
     + destruct (rev_parts_regular _ _ _ E) as (Rl & _). exists (dl ++ ds), l. split; [reflexivity|].
       split; [exists ds; auto|]. split; [apply Rl|intros _; exact Rl].
-  - rewrite orb_false_r. destruct (rev (split_remote_path remote)) as [|l r] eqn:E.
+  - rewrite orb_false_r. unfold keepdir_guard_le. destruct (rev (split_remote_path remote)) as [|l r] eqn:E.
     + exists (dl ++ ds), f. split; [reflexivity|]. split; [exists ds; auto | split; assumption].
     + destruct (rev_parts_regular _ _ _ E) as (_ & Rc). destruct r as [|c r'].
       * exists (dl ++ ds), f. split; [reflexivity|]. split; [exists ds; auto | split; assumption].
@@ -231,7 +232,7 @@ Lemma strip_prefix_app : forall a b, strip_prefix a (a ++ b) = Some b.
 Proof. induction a; intros b; cbn; [destruct b; reflexivity|]. rewrite N.eqb_refl. apply IHa. Qed.
 
 Lemma digits_are_digits : forall u c, In c (digits_of_uint u) -> is_digit c = true.
-Proof. induction u; cbn; intros c H; try tauto; destruct H as [<-|H]; try reflexivity; apply IHu; assumption. Qed.
+Proof. induction u; cbn [digits_of_uint In]; intros c H; try tauto; (destruct H as [<-|H]; [vm_compute; reflexivity | apply IHu; assumption]). Qed.
 
 Lemma take_digits_app : forall d t, (forall c, In c d -> is_digit c = true) ->
   match t with [] => True | c :: _ => is_digit c = false end -> take_digits (d ++ t) = (d, t).
@@ -242,8 +243,16 @@ Proof.
     intros c Hc. apply Hd. right. assumption.
 Qed.
 
+Lemma dval_ascii : dval 48 = 0 /\ dval 49 = 1 /\ dval 50 = 2 /\ dval 51 = 3 /\ dval 52 = 4 /\ dval 53 = 5 /\ dval 54 = 6 /\ dval 55 = 7 /\
+  dval 56 = 8 /\ dval 57 = 9.
+Proof. vm_compute. repeat split; reflexivity. Qed.
+
 Lemma uint_roundtrip : forall u, uint_of_digits (digits_of_uint u) = u.
-Proof. induction u; cbn; try reflexivity; rewrite IHu; reflexivity. Qed.
+Proof.
+  destruct dval_ascii as (D0 & D1 & D2 & D3 & D4 & D5 & D6 & D7 & D8 & D9).
+  induction u; cbn [digits_of_uint uint_of_digits]; try reflexivity;
+    rewrite ?D0, ?D1, ?D2, ?D3, ?D4, ?D5, ?D6, ?D7, ?D8, ?D9, IHu; reflexivity.
+Qed.
 
 Lemma int_dec : forall k, int_of_digits (dec k) = k.
 Proof. intros. unfold int_of_digits, dec. rewrite uint_roundtrip. apply DecimalN.Unsigned.of_to. Qed.
@@ -261,7 +270,7 @@ Proof.
   - destruct (dec k) eqn:E; [exfalso; eapply dec_nonempty; eassumption|]. rewrite <- E.
     replace (RP :: ext) with ((RP :: ext) ++ []) at 2 by apply app_nil_r. rewrite strip_prefix_app. rewrite int_dec. reflexivity.
   - intros c Hc. eapply digits_are_digits. exact Hc.
-  - reflexivity.
+  - vm_compute. reflexivity.
 Qed.
 
 Lemma indices_In : forall stem ext names n k, In n names -> match_index stem ext n = Some k -> In k (indices stem ext names).
@@ -389,7 +398,7 @@ Definition dinv (s : dstate) : Prop :=
 
 Lemma dstep_dinv : forall ch dl remotes s e, dinv s -> dinv (dstep (ch ++ [NumDup]) dl remotes s e).
 Proof.
-  intros ch dl remotes s e (H1 & H2). destruct e as [k|k]; cbn [dstep].
+  intros ch dl remotes s e (H1 & H2). destruct e as [k|k]; cbn [dstep]; unfold prepare_reserves.
   - destruct (find_path (d_paths s) k); [split; assumption|].
     destruct (chain (d_fs s) (remotes k) (ch ++ [NumDup]) dl) as [[p f]|] eqn:E; [|split; assumption].
     destruct (mkdirs_ext (norm p) (d_fs s) []) as (e1 & E1). rewrite E1.
